@@ -21,7 +21,7 @@ from vlib import common
 from props import atp_common as A
 from props import atp_hello as H
 
-SPECS = ["ATPServerEnvMC", "ATPTrace", "ATPHelloMC", "ATPHelloTraceMC"]
+SPECS = ["ATPServerEnvMC", "ATPServerCancelMC", "ATPTrace", "ATPHelloMC", "ATPHelloTraceMC"]
 PKGS = ["./cmd/atp"]
 
 BAD_VARIANTS = [("bad", "unknown_id"), ("ws", "no_run"), ("ws", "no_step"), ("ws", "no_run_key"), ("ws", "payload_type"), ("sig", "no_run"),
@@ -126,7 +126,7 @@ def has_dup(script):
     return False
 
 
-def judge(ctx, sc, rr):
+def judge(ctx, sc, rr, cancelled=False):
     if rr.get("crash"):
         msg = rr.get("detail", "")
         first = next((l for l in msg.splitlines() if l.startswith("panic:") or l.startswith("fatal error:")), msg[:120])
@@ -148,6 +148,17 @@ def judge(ctx, sc, rr):
     # every accepted work-start is answered by exactly one terminal message; a work-start that could not be
     # accepted because its payload is undecodable is answered by a step-fatal error carrying its run ID
     acc, term = res.get("accepted") or {}, res.get("terminals") or {}
+    if cancelled:
+        # after the cancellation errors are no longer forwarded: at most one terminal message per accepted work-start,
+        # and exactly one for a step that succeeds (its work-done does not pass through the closure handler)
+        okruns = set(o["run"] for o in sc["script"] if o.get("op") == "send" and o.get("kind") == "ws" and o.get("beh") == "ok" and not o.get("variant"))
+        for r in set(acc) | set(term):
+            lo = acc.get(r, 0) if r in okruns else 0
+            if not (lo <= term.get(r, 0) <= acc.get(r, 0)):
+                ctx.violation(dict(kind="terminal_count", accepted=min(acc.get(r, 0), 2), terminals=min(term.get(r, 0), 3), family="cancel"),
+                              dict(scenario=sc, run=r, accepted=acc, terminals=term, received=res.get("received")))
+                break
+        return res
     malformed = {}
     for o in sc["script"]:
         if o.get("op") == "send" and o.get("kind") == "ws" and o.get("variant") == "payload_type":
@@ -184,7 +195,8 @@ def run(ctx):
     ctx.assumptions += [
         "the client keeps reading the server's output until it closes (a client that stops reading stalls a write for at most the "
         "60 s send timeout, which is not driven)",
-        "context cancellation of the server is outside the property's quantifier",
+        "context cancellation of the server is outside the property's quantifier (modelled in ATPServerCancel.tla and bound to the code by "
+        "validated sessions; only what the statement demands of any session is judged there)",
         "duplicate run IDs are exercised on the real code with the counting oracle only (the model keeps one step goroutine per run ID)",
         "design variant of the model bound to the code: %s" % json.dumps(A.DESIGN),
     ]
@@ -277,6 +289,58 @@ def run(ctx):
                            scenario=next((s for s in burst if s["id"] == info.get("session")), None),
                            events=evs[: info["event_index"] + 3], tlc=info.get("tlc_tail", "")))
     ctx.extra["burst_sessions"] = len(burst)
+    # ------------------------------------------------------------ a cancelled server context (spec/ATPServerCancel.tla)
+    # Not client-driven, so outside the property's quantifier: these sessions extend the binding of the specification
+    # to the SIGTERM path of the code and are judged by what the statement demands of ANY session - no panic, no
+    # deadlock, never more than one terminal message per accepted work-start, the server returns once the input has
+    # ended and the steps have finished - plus one thing the model says survives cancellation: a successful step is
+    # still answered.  That errors raised after the cancellation go unanswered is what the code does (the model says
+    # so: TLC must exhibit EnvAnswers violated under CancelFairSpec) and is not reported.
+    cconsts = dict(Runs="R2", StepBeh="BehAll", BadSigRuns="R1", MaxEnv=3 if thorough else 2)
+    cfgc = A.mc_cfg(os.path.join(ctx.tmp, "c07_cancel.cfg"), cconsts, invariants=["EnvNoCrash", "EnvOneTerminal", "CancelNoStuck", "CancelSilent"],
+                    spec="CancelSpec")
+    rc = ctx.tlc("ATPServerCancelMC", cfgc, workers=min(12, common.NCPU), timeout=1500, allow_violation=True)
+    ctx.log("cancel model: %r" % rc)
+    if rc.violated:
+        raise common.Infra("ATPServerCancel: %s violated on the model of the current code:\n%s" % (rc.violated, "\n".join(rc.out.splitlines()[-30:])))
+    lconsts = dict(Runs="R1", StepBeh="BehAll", BadSigRuns="R1", MaxEnv=2)
+    rl = ctx.tlc("ATPServerCancelMC", A.mc_cfg(os.path.join(ctx.tmp, "c07_cancel_live.cfg"), lconsts, properties=["CancelReturns", "CancelOkAnswered"],
+                                               spec="CancelFairSpec"), workers=4, timeout=900, allow_violation=True)
+    if rl.violated:
+        raise common.Infra("ATPServerCancel liveness: %s violated on the model:\n%s" % (rl.violated, "\n".join(rl.out.splitlines()[-30:])))
+    ru = ctx.tlc("ATPServerCancelMC", A.mc_cfg(os.path.join(ctx.tmp, "c07_cancel_unanswered.cfg"), lconsts, properties=["EnvAnswers"],
+                                               spec="CancelFairSpec"), workers=4, timeout=900, allow_violation=True)
+    if not ru.violated:
+        raise common.Infra("ATPServerCancel: EnvAnswers holds under cancellation - the model no longer says that errors are dropped "
+                           "after the context is cancelled, which is what the code does")
+    cancel = []
+    CX = dict(op="cancel")
+    for be, va in (("ok", ""), ("err", ""), ("panic", ""), ("ok", "bad_input"), ("declared_error", "")):
+        ws1 = dict(op="send", kind="ws", run="r1", beh=be, variant=va)
+        ws2 = dict(op="send", kind="ws", run="r2", beh="ok", variant="")
+        f1, f2 = dict(op="finish", run="r1"), dict(op="finish", run="r2")
+        cd = dict(op="send", kind="cd", run="", variant="", beh="ok")
+        for name, script in (("first", [CX, ws1, f1, cd]), ("running", [ws1, CX, f1, cd]), ("finished", [ws1, f1, CX, cd]),
+                             ("two", [ws1, ws2, CX, f2, f1, dict(op="eof")]), ("then_more", [ws1, CX, ws2, f1, f2, cd]),
+                             ("after_eof", [ws1, dict(op="eof"), CX, f1]), ("junk", [ws1, CX, dict(op="send", kind="junk", run="", variant="", beh="ok"), f1]),
+                             ("sig", [ws1, CX, dict(op="send", kind="sig", run="r1", variant="bad_data", beh="ok"), f1, cd])):
+            cancel.append(dict(id="cancel/%s%s/%s" % (be, va, name), mode="server", cap=0, script=script))
+    csessions = []
+    for sc, rr in zip(cancel, A.run_driver(ctx, cancel, label="c07cancel")):
+        ctx.count(json.dumps(sc["script"], sort_keys=True))
+        out = judge(ctx, sc, rr, cancelled=True)
+        if out is not None and not out.get("stuck"):
+            csessions.append((sc["id"], out["events"]))
+    ok, info = A.validate(ctx, csessions, ["r1", "r2", "r3"], 0, [], ["r1"], label="c07canceltrace") if csessions else (True, {})
+    if ok:
+        ctx.traces += len(csessions)
+    else:
+        evs = next((e for sid, e in csessions if sid == info.get("session")), [])
+        ctx.violation(dict(kind="trace_" + info["kind"], event=info["line"]["ev"], violated=str(info.get("violated")), family="cancel"),
+                      dict(session=info.get("session"), line=info["line"], prefix=info.get("prefix"),
+                           scenario=next((s for s in cancel if s["id"] == info.get("session")), None),
+                           events=evs[: info["event_index"] + 3], tlc=info.get("tlc_tail", "")))
+    ctx.extra["cancelled_context_sessions"] = len(cancel)
     base = [
         [dict(op="send", kind="ws", run="r1", beh="ok", variant=""), dict(op="send", kind="sig", run="r1", variant="", beh="ok"),
          dict(op="finish", run="r1"), dict(op="send", kind="cd", run="", variant="", beh="ok")],
